@@ -84,3 +84,26 @@ TEXT = {
         note=_BASE + ' copy(), flatten(), T, fxp_like are documented shallow copies and excluded.',
         technique='stateful property-based testing with snapshot-comparison invariant + Hypothesis containers + exhaustive config-validation enumeration'),
 }
+
+# ---- additions made after the independent bug-hunt rounds (DESIGN.md sections 5 and 9): input classes that were added to the generators
+_ADDED = {
+    'C01': ' Later additions: containers of numpy scalars and narrow numpy dtypes, complex values written by index into objects holding reals (and the reverse), complex values converted from another fixed-point object by six routes.',
+    'C02': ' Later additions: limits must be complex exactly while complex values are held; objects that are their own op_out / op_out_like target and their like= / template= / indexing derivations.',
+    'C03': ' Later additions: wide words with negative n_frac; + - * delivered through out_like / out / numpy out= / call / config.op_out into a wrap register of a third format (any rounding, usually fewer fraction bits); sum / cumsum / max / min / dot accumulated into such registers, and reductions of a wrap operand with same sizing.',
+    'C04': ' Later additions: unary -,+,abs, like(), fxp_sum, callbacks given next to like= / template=, one complex boundary write per notification.',
+    'C06': ' Later additions: narrow numpy carriers, arrays in the capped case (asserted at the 64-bit word too), long-fraction doubles of both signs, a given n_frac up to the word limit or negative.',
+    'C08': ' Later additions: numpy scalar / 0-d constants on either side, config.array_op_out / array_op_out_like targets through the numpy ufunc form (also with the constant on the left).',
+    'C09': ' Later additions: operand words up to 62 bits with a result word <=53.',
+    'C11': ' Later additions: numpy arrays of rendered strings (54..63-bit class), prefixes selected through the configuration, dotted binary strings fed back as raw values.',
+    'C12': ' Later additions: a dtype spelling given together with a zero value.',
+    'C13': ' Later additions: operands taken out of arrays by indexing or produced by a keep-mode shift (64+ bit words), numpy-typed masks on either side.',
+    'C14': ' Later additions: numpy-typed shift counts.',
+    'C15': ' Later additions: transpose axes / .T, keepdims, tuple axes, exchanged diagonal axes, clip with one limit / list / ndarray / fixed-point limits / numpy min= max= names / repr method, matmul through np.matmul and @ under every array_op_method.',
+    'C16': ' Later additions: numpy scalars, 0-d arrays and ndarrays on either side, numpy comparison ufuncs.',
+    'C17': ' Later additions: numpy-scalar scale / bias, scale / bias next to like=, uint64 and fixed-point carriers, like() route, elements of scaled arrays, sums delivered into scaled out / out_like targets or taken with a scaled operand.',
+    'C18': ' Later additions: element-wise assignment of python integers into wide arrays (elements must stay python ints).',
+    'C20': ' Later additions: arrays returned by x(), get_val(), astype() are overwritten and the object must not change.',
+}
+for _k, _v in _ADDED.items():
+    TEXT[_k]['level'] += _v
+TEXT['C09']['note'] = TEXT['C09']['note'].replace(' Operand pairs whose aligned intermediate needs >=63 bits are a listed known finding (int64 raw kernels), classified from the formats alone.', ' Operand pairs whose aligned intermediate needs >=63 bits form their own input class (repaired defect D10).')
